@@ -21,7 +21,7 @@ DEFAULT_FEATURES = {
     "block_shadow": False,       # inner let shadowing an outer name
     "enum_print": False,         # printing an enum value
     "min_builtin": False,        # (min a b) on the VM
-    "charclass_vm": False,       # is_alpha / is_whitespace / is_upper on the VM
+    "charclass_vm": False,       # is_alpha / is_alnum / is_whitespace / is_upper / is_lower on the VM
     "cmp_same_operand": False,   # (< a a): cc -Werror=tautological-compare
     "strlen_in_cmp": False,      # str_length directly inside a comparison / cond: cc -Werror=sign-compare
     "import_fnvalue": False,     # imported function used as a value: cc fails
@@ -33,7 +33,17 @@ DEFAULT_FEATURES = {
     "cmp_of_cmp": False,         # (== (< a b) (< c d)) is transpiled without parentheses: cc -Werror=parentheses
     "match_scrutinee_expr": False,  # match on a non-variable scrutinee: payload binding has no type
     "match_expr_string": False,  # string-valued match expression nested in an expression: transpiler assumes int64
-    "multi_effect_args": False,  # more than one order-sensitive argument in one argument list (native evaluates right-to-left)
+    "multi_effect_args": False,
+    "abs_effect_arg": False,     # (abs e) / (min a b) / (max a b) evaluate their arguments twice natively: effects duplicated
+    "tuple_param": False,        # tuple-typed parameter: cc fails (unknown type name Tuple_...)
+    "fnvalue_copy": False,       # let f2: fn.. = <fn-typed variable>: nanoc's evaluator double-frees
+    "neg_const_global": False,
+    "fnvalue_let_nested": False, # let of a function type inside a nested block: cc fails (unknown type name FnType_N)
+    "match_expr_nested": False,  # match expression anywhere but directly as the returned value: transpiler types it as the function's return type
+    "zero_arg_fnvalue": False,   # (p) with p a zero-parameter function value is not a call
+    "self_assign": False,
+    "break_in_match": False,     # break inside a match arm inside a loop: natively it only leaves the C switch        # set x x (string): nanoc's evaluator returns garbage   # (- g) with a negative constant global is transpiled to --1: cc fails
+    "print_indirect_call": False,  # (println (f args)) through a function value prints <unknown> natively  # more than one order-sensitive argument in one argument list (native evaluates right-to-left)
 }
 
 BUILTIN_NAMES = set("""abs min max str_length str_concat str_substring str_contains str_equals char_at string_from_char
@@ -42,6 +52,25 @@ char_to_upper at array_length array_new array_push array_set array_pop array_rem
 
 STR_POOL = ["", "a", "bc", "xyz", "hello", "nano", "A1", "q r", "Zz9", "lang", "0", "-7", "42"]
 INT_POOL = [0, 1, 2, 3, 5, 7, 10, -1, -3, 12, 100, 64, -50, 9]
+
+
+def leaves(e):
+    """sorted multiset of the variables and literals of an expression (gcc's tautological-compare warning sees through
+    commutativity, so 'different' operands must differ in their leaves)"""
+    out = []
+    stack = [e]
+    while stack:
+        x = stack.pop()
+        if isinstance(x, list):
+            stack.extend(x)
+        elif isinstance(x, tuple) and x:
+            if not isinstance(x[0], str):
+                stack.extend(y for y in x if isinstance(y, (tuple, list)))
+            elif x[0] in ("var", "int", "bool", "str", "float", "fnref", "enumv"):
+                out.append(repr(x))
+            else:
+                stack.extend(y for y in x[1:] if isinstance(y, (tuple, list)))
+    return sorted(out)
 
 
 class Scope:
@@ -104,6 +133,8 @@ class Gen:
         self.cur_pure = True
         self.cur_fn = None
         self.loop_depth = 0
+        self.in_let_init = False
+        self.in_match = 0
         self.in_for = 0
         self.block_depth = 0
 
@@ -225,6 +256,9 @@ class Gen:
                     stack.extend(x)
                 continue
             k = x[0]
+            if not isinstance(k, str):
+                stack.extend(y for y in x if isinstance(y, (tuple, list)))
+                continue
             if k == "var" and x[1] in mg:
                 rd = True
             elif k == "call":
@@ -318,7 +352,7 @@ class Gen:
         if k < 0.31 and self.f["effects"] and not self.no_effects:
             self.tag("effect.trace")
             return ("call", {"int": "tr_int", "bool": "tr_bool", "string": "tr_str"}[t], [self.expr(sc, t, d - 1)])
-        if k < 0.34 and self.f["match_expr"] and self.unions and (t != "string" or self.f["match_expr_string"]):
+        if k < 0.34 and self.f["match_expr"] and self.f["match_expr_nested"] and self.unions and (t != "string" or self.f["match_expr_string"]):
             me = self.match_expr(sc, t, d)
             if me is not None:
                 return me
@@ -328,28 +362,41 @@ class Gen:
             return self.expr_bool(sc, d)
         return self.expr_str(sc, d)
 
+    def abs_arg(self, sc, d):
+        if self.f["abs_effect_arg"]:
+            return self.expr(sc, "int", d)
+        save = self.no_effects
+        self.no_effects = True
+        try:
+            return self.expr(sc, "int", d)
+        finally:
+            self.no_effects = save
+
     def expr_int(self, sc, d):
         r = self.r
         k = r.random()
         if k < 0.45:
             op = r.choice(["+", "-", "+", "-", "*"])
             self.tag("int.arith")
-            return ("bin", op, self.expr(sc, "int", d - 1), self.expr(sc, "int", d - 1))
+            a, b = self.arg_list(sc, ["int", "int"], d - 1)
+            return ("bin", op, a, b)
         if k < 0.58:
             op = r.choice(["/", "%"])
             self.tag("int.divmod")
-            return ("bin", op, self.expr(sc, "int", d - 1), ("bin", "+", ("call", "abs", [self.expr(sc, "int", d - 1)]), ("int", 1)))
+            return ("bin", op, self.abs_arg(sc, d - 1) if self.chance(0.3) else self.expr(sc, "int", d - 1), ("bin", "+", ("call", "abs", [self.abs_arg(sc, d - 1)]), ("int", 1)))
         if k < 0.66:
             self.tag("builtin.abs_max")
             if self.chance(0.5):
-                return ("call", "abs", [self.expr(sc, "int", d - 1)])
+                return ("call", "abs", [self.abs_arg(sc, d - 1)])
             name = "max" if not self.f["min_builtin"] or self.chance(0.5) else "min"
-            return ("call", name, self.arg_list(sc, ["int", "int"], d - 1))
+            return ("call", name, [self.abs_arg(sc, d - 1), self.abs_arg(sc, d - 1)])
         if k < 0.72:
             self.tag("int.neg")
             e = self.expr(sc, "int", d - 1)
             if e[0] == "int" and e[1] < 0 and not self.f["neg_negative_literal"]:
                 e = ("int", -e[1])
+            if e[0] == "var" and not self.f["neg_const_global"] and any(n == e[1] for n, _ in self.const_globals):
+                return ("bin", "-", ("int", 0), e)
             return ("un", "neg", e)
         if k < 0.80 and self.f["strings"] and self.f["charops"]:
             self.tag("string.char_at")
@@ -367,13 +414,15 @@ class Gen:
     def distinct_pair(self, sc, t, d):
         a = self.expr(sc, t, d)
         b = self.expr(sc, t, d)
+        a, b = self.desens(sc, t, d, a, b)
         if self.f["cmp_same_operand"]:
             return a, b
         for _ in range(4):
-            if a != b:
+            if leaves(a) != leaves(b):
                 return a, b
             b = self.expr(sc, t, d)
-        if a == b:
+            a, b = self.desens(sc, t, d, a, b)
+        if leaves(a) == leaves(b):
             if t == "int":
                 b = ("bin", "+", b, ("int", 1))
             elif t == "string":
@@ -428,7 +477,7 @@ class Gen:
                 return ("bin", r.choice(["==", "!="]), a, b)
         if k < 0.97 and self.f["charops"]:
             self.tag("char.class")
-            fns = ["is_digit", "is_alnum", "is_lower"] + (["is_alpha", "is_whitespace", "is_upper"] if self.f["charclass_vm"] else [])
+            fns = ["is_digit"] + (["is_alpha", "is_whitespace", "is_upper", "is_alnum", "is_lower"] if self.f["charclass_vm"] else [])
             return ("call", r.choice(fns), [("int", r.choice([48, 57, 65, 97, 32, 95, 122, 10, 64]))])
         if self.f["cmp_of_cmp"]:
             a, b = self.distinct_pair(sc, "bool", d - 1)
@@ -442,7 +491,8 @@ class Gen:
             self.tag("string.concat")
             if self.chance(0.3):
                 return ("call", "str_concat", self.arg_list(sc, ["string", "string"], d - 1))
-            return ("bin", "+", self.expr(sc, "string", d - 1), self.expr(sc, "string", d - 1))
+            a, b = self.arg_list(sc, ["string", "string"], d - 1)
+            return ("bin", "+", a, b)
         if k < 0.65:
             self.tag("string.from_int")
             return ("call", "int_to_string", [self.expr(sc, "int", d - 1)])
@@ -455,6 +505,20 @@ class Gen:
             self.tag("string.from_char")
             return ("call", "string_from_char", [("int", r.choice([65, 90, 97, 122, 48, 57, 33, 126]))])
         return ("bin", "+", self.expr(sc, "string", d - 1), self.literal("string"))
+
+    def desens(self, sc, t, d, a, b):
+        """make (a, b) have at most one order-sensitive member"""
+        if self.f["multi_effect_args"]:
+            return a, b
+        sa, sb = self.sensitivity(a), self.sensitivity(b)
+        if (sa[0] and (sb[0] or sb[1])) or (sb[0] and sa[1]):
+            save = (self.no_effects, self.no_mut_reads)
+            self.no_effects = self.no_mut_reads = True
+            try:
+                b = self.expr(sc, t, d)
+            finally:
+                self.no_effects, self.no_mut_reads = save
+        return a, b
 
     def expr_float(self, sc, d):
         r = self.r
@@ -525,6 +589,8 @@ class Gen:
     def expr_aggregate(self, sc, t, d):
         r = self.r
         v = sc.of_type(t)
+        if t[0] == "fn" and self.in_let_init and not self.f["fnvalue_copy"]:
+            v = []
         if v and self.chance(0.5):
             # never hand out a mutable (owned) array by name: aliasing is outside the asserted zone
             v = [n for n in v if not dict(sc.vars())[n]["owned"]]
@@ -557,7 +623,7 @@ class Gen:
                  and (not s.imported or self.f["import_fnvalue"]) and s.name != self.cur_fn
                  and (s.pure or not self.cur_pure_only)]
             vs = sc.of_type(t)
-            if vs and self.chance(0.4):
+            if vs and self.chance(0.4) and (self.f["fnvalue_copy"] or not self.in_let_init):
                 return ("var", r.choice(vs))
             if c:
                 self.tag("fn.value")
@@ -616,7 +682,7 @@ class Gen:
             sigs = [s for s in self.sigs if (s.pure or not self.cur_pure_only) and s.name != self.cur_fn and s.ret == "void"]
             if sigs:
                 return [("expr", self.gen_call(sc, r.choice(sigs), 2))]
-        if k < 0.97 and self.loop_depth > 0 and self.f["break_continue"] and (self.in_for == 0 or self.f["for_continue"] or True):
+        if k < 0.97 and self.loop_depth > 0 and self.f["break_continue"] and (self.in_match == 0 or self.f["break_in_match"]):
             return self.break_continue(sc)
         if self.f["string_loop"] and self.f["strings"] and depth > 0 and self.loop_depth == 0:
             return self.string_loop(sc)
@@ -639,7 +705,7 @@ class Gen:
             t = ("enum", r.choice(list(self.enums)))
         elif k < 0.50 and self.unions:
             t = ("union", r.choice(list(self.unions)))
-        elif k < 0.55 and self.f["fnvalues"]:
+        elif k < 0.55 and self.f["fnvalues"] and (self.block_depth == 0 or self.f["fnvalue_let_nested"]):
             ft = self.pick_fn_type()
             if ft:
                 t = ft
@@ -650,7 +716,11 @@ class Gen:
             e = ("call", "str_length", [self.expr(sc, "string", 2)])
             sc.add(name, "int")
             return [("let", name, "int", False, e)]
-        e = self.expr(sc, t, 3)
+        self.in_let_init = True
+        try:
+            e = self.expr(sc, t, 3)
+        finally:
+            self.in_let_init = False
         if e is None:
             return None
         name = self.fresh()
@@ -677,6 +747,8 @@ class Gen:
                 continue
             if not s.pure and self.cur_pure_only:
                 continue
+            if not s.params and not self.f["zero_arg_fnvalue"]:
+                continue
             if all(isinstance(pt, str) for _, pt in s.params) and isinstance(s.ret, str) and s.ret != "void" and s.kind != "hof":
                 c.append(("fn", tuple(pt for _, pt in s.params), s.ret))
         return self.r.choice(c) if c else None
@@ -693,7 +765,10 @@ class Gen:
             return [("set", n, self.expr(sc, t, 2))]
         n, d = self.r.choice(c)
         self.tag("set")
-        return [("set", n, self.expr(sc, d["t"], 2))]
+        e = self.expr(sc, d["t"], 2)
+        if e == ("var", n) and not self.f["self_assign"]:
+            e = self.literal(d["t"])
+        return [("set", n, e)]
 
     def block(self, sc, depth, ret_t, n=None):
         sc.push()
@@ -826,7 +901,11 @@ class Gen:
                     else:
                         body.append(("print", ("str", lab + ":"), True))
                         body.append(("print", pe, True))
+            self.in_match += 1
+            self.block_depth += 1
             body += self.stmts(sc, self.r.randint(0, 2), depth - 1, None)
+            self.block_depth -= 1
+            self.in_match -= 1
             if not body:
                 body = self.print_stmt(sc)
             sc.pop()
@@ -884,7 +963,7 @@ class Gen:
                 elif k < 0.23 and self.unions:
                     t = ("union", r.choice(list(self.unions)))
                     self.tag("param.union")
-                elif k < 0.28 and self.tuple_types:
+                elif k < 0.28 and self.tuple_types and self.f["tuple_param"]:
                     t = r.choice(self.tuple_types)
                     self.tag("param.tuple")
                 elif k < 0.33 and self.f["fnvalues"]:
@@ -919,13 +998,22 @@ class Gen:
                 lab = self.label()
                 call = ("callv", ("var", pn), self.arg_list(sc, list(pt[1]), 1))
                 self.tag("call.indirect")
+                if not self.f["print_indirect_call"]:
+                    rv = self.fresh()
+                    body.append(("let", rv, pt[2], False, call))
+                    call = ("var", rv)
                 if pt[2] == "string":
                     body.append(("print", ("bin", "+", ("str", lab + ":"), call), True))
                 else:
                     body.append(("print", ("str", lab + ":"), True))
                     body.append(("print", call, True))
         if ret != "void":
-            e = self.expr(sc, ret, 2)
+            e = None
+            if self.f["match_expr"] and self.unions and (ret in ("int", "bool") or (ret == "string" and self.f["match_expr_string"])) and self.chance(0.3):
+                save = self.f["match_scrutinee_expr"]
+                e = self.match_expr(sc, ret, 2)
+            if e is None:
+                e = self.expr(sc, ret, 2)
             if e is None:
                 return None
             body.append(("return", e))
